@@ -9,7 +9,7 @@ use proptest::prelude::*;
 use serde::{Deserialize, Serialize};
 use serde_json::json;
 
-pub const RULE: &str = "positions: all generator sources incl. the multi-queen / under-promotion themes (game phase up to 88) and walks from them; for each position P and its mirror twin M (ranks flipped, colours, side, rights and e.p. target swapped, built by the reference model): eval(P) == eval(M), no panic, eval is not a mate score, and with mg := eval with the phase counter forced to 24 and eg := forced to 0, min(mg,eg) <= eval(P) <= max(mg,eg). Blend triples: PhasedEval::new(mg,eg).for_phase(p) lies between mg and eg for mg,eg in [-20000,20000], p in 0..=88. Non-trivial position = phase above 24 or asymmetric pawn structure / king placement; distinct by identity.";
+pub const RULE: &str = "positions: all generator sources incl. the multi-queen / under-promotion themes (game phase up to 88) and walks from them; for each position P and its mirror twin M (ranks flipped, colours, side, rights and e.p. target swapped, built by the reference model): eval(P) == eval(M), no panic, eval is not a mate score, and with mg := eval with the phase counter forced to 24 and eg := forced to 0, min(mg,eg) <= eval(P) <= max(mg,eg). Every walk is also played on one engine Game (make_move) and the evaluation of each position reached by play is held to the same demands (band from a fresh copy, mirror twin built from scratch). Blend triples: PhasedEval::new(mg,eg).for_phase(p) lies between mg and eg for mg,eg in [-20000,20000], p in 0..=88. Non-trivial position = phase above 24 or asymmetric pawn structure / king placement; distinct by identity.";
 
 #[derive(Serialize, Deserialize, Clone, Debug)]
 pub struct Triple {
@@ -80,6 +80,33 @@ pub fn check_position(p: &Pos, st: &mut Stats) -> Result<(), Fail> {
     Ok(())
 }
 
+/// The evaluation of a game object reached by play must satisfy the same demands; the mirror twin
+/// and the pure middlegame / endgame values come from positions set up from scratch.
+fn check_played(g: &crate::chess::game::Game, p: &Pos, st: &mut Stats) -> Result<(), Fail> {
+    st.eval();
+    st.class("position_reached_by_play");
+    let fen = p.to_fen();
+    let ex = || explicit_fen(p);
+    let e = match catch(|| eval(g)) {
+        Ok(e) => e,
+        Err(pm) => return Err(Fail::new(&format!("eval_panic:{}", panic_signature(&pm)), format!("eval panicked on {fen} reached by play: {pm}")).explicit(ex())),
+    };
+    let fresh = to_game(p);
+    let mut g_mg = fresh.clone();
+    g_mg.incremental_eval.phase_value = 24;
+    let mut g_eg = fresh.clone();
+    g_eg.incremental_eval.phase_value = 0;
+    let (mg, eg) = (eval(&g_mg), eval(&g_eg));
+    if e.0 < mg.0.min(eg.0) || e.0 > mg.0.max(eg.0) {
+        return Err(Fail::new("eval_outside_blend:reached_by_play", format!("eval of {fen} reached by play = {} is outside [middlegame {}, endgame {}]", e.0, mg.0, eg.0)).explicit(ex()));
+    }
+    let em = eval(&to_game(&p.mirror()));
+    if e != em {
+        return Err(Fail::new("eval_not_colour_symmetric:reached_by_play", format!("eval of {fen} reached by play = {} but its mirror twin evaluates to {}", e.0, em.0)).explicit(ex()));
+    }
+    Ok(())
+}
+
 pub fn run(run: &mut Run) -> &'static str {
     let cases = run.tier.pick(300_000, 6_000_000);
     run.proptest_part("positions", RULE, pos_case(4..160), cases, |c: &PosCase, st: &mut Stats| {
@@ -88,9 +115,27 @@ pub fn run(run: &mut Run) -> &'static str {
             PosCase::Tape(t) if t.last().map_or(false, |x| x % 2 == 0) => Mix::Tactical,
             _ => Mix::General,
         };
-        for gp in c.positions(mix, 24, st) {
+        let ps = c.positions(mix, 24, st);
+        // the same walk is also *played* on one engine Game (make_move), so that the evaluation of a
+        // position reached by play - with its incrementally maintained phase and accumulators - is
+        // held to the same three demands as a position set up directly
+        let mut played: Option<crate::chess::game::Game> = None;
+        for (i, gp) in ps.iter().enumerate() {
             st.class(&format!("src:{}", gp.src));
             check_position(&gp.pos, st)?;
+            if i == 0 {
+                played = Some(to_game(&gp.pos));
+            } else if let Some(g) = played.as_mut() {
+                let prev = &ps[i - 1].pos;
+                let mv = prev.legal_moves().into_iter().find(|m| prev.make(m) == gp.pos);
+                match mv.and_then(|m| find_move(g, &m)) {
+                    Some(em) => {
+                        g.make_move(em);
+                        check_played(g, &gp.pos, st)?;
+                    }
+                    None => played = None,
+                }
+            }
         }
         Ok(())
     });
